@@ -93,7 +93,7 @@ class DependsWorld:
     props = ('C06', 'C07')
     levels = {'C06': 'exploration', 'C07': 'exploration'}
     chunk = 300
-    budget = {'quick': dict(runs=16000, wall=45.0), 'thorough': dict(runs=800000, wall=900.0)}
+    budget = {'quick': dict(runs=16000, wall=180.0), 'thorough': dict(runs=800000, wall=900.0)}
     time_unit = 'n/a: logical steps only'
     state_measure = 'C06: distinct (class shape, per-op expected-invocation multiset); C07: distinct (attachment graph, op kind) pairs'
     components = {'real': ['param.depends decorator (method and function form)', 'ParameterizedMetaclass dependency tables and inheritance',
